@@ -43,6 +43,10 @@ func (x *Exec) descT(q, r *Term) *Term {
 		d := tt.UF("desc$", "Bool", a, b)
 		// descendants of validator objects are validator objects
 		x.facts = append(x.facts, tt.Forall([]*Term{a, b}, tt.Implies(d, tt.Or(tt.Eq(a, b), tt.UF("isval$", "Bool", a))), []*Term{d}))
+		// nothing descends from nil
+		x.facts = append(x.facts, tt.Forall([]*Term{a}, tt.Not(tt.UF("desc$", "Bool", a, tt.IntLit(0))), []*Term{tt.UF("desc$", "Bool", a, tt.IntLit(0))}))
+		// ... and nil descends from nothing
+		x.facts = append(x.facts, tt.Forall([]*Term{a}, tt.Not(tt.UF("desc$", "Bool", tt.IntLit(0), a)), []*Term{tt.UF("desc$", "Bool", tt.IntLit(0), a)}))
 		// the validator objects form a forest: the ancestors of an object form a chain
 		c := tt.Bound("c", "Int")
 		d1, d2 := tt.UF("desc$", "Bool", c, a), tt.UF("desc$", "Bool", c, b)
@@ -151,8 +155,12 @@ func (x *Exec) arrayEmbedders() []string {
 			continue
 		}
 		for i := 0; i < st.NumFields(); i++ {
-			if _, isA := st.Field(i).Type().Underlying().(*types.Array); isA {
+			if at, isA := st.Field(i).Type().Underlying().(*types.Array); isA {
 				x.arrEmb = append(x.arrEmb, "fa$"+typeName(tn.Type())+"$"+st.Field(i).Name())
+				if x.arrEmbElem == nil {
+					x.arrEmbElem = map[string]bool{}
+				}
+				x.arrEmbElem[typeName(at.Elem())] = true
 			}
 		}
 	}
@@ -478,7 +486,7 @@ func (x *Exec) curFrameOr(f *Frame) *Frame {
 }
 
 func (x *Exec) effectTags() []string {
-	return x.con.frameTagsPlus([]string{"C12", "C08", "C04"})
+	return x.con.frameTagsPlus([]string{"C12", "C08", "C04", "C05"})
 }
 
 func (x *Exec) writeAllowed(fr *Frame, heap string, idx *Term) *Term {
@@ -603,7 +611,15 @@ func (x *Exec) checkCallEffects(fr *Frame, st, pre *State, recv *Term, key strin
 				hyp = tt.And(hyp, tt.Not(tt.UF("isval$", "Bool", tt.UF("inv$"+fa, "Int", q))))
 			}
 		}
-		g := tt.Forall([]*Term{q}, tt.Implies(tt.And(hyp, x.keepCond(top.entry, k.heap, q, myRecv)), x.keepCond(pre, k.heap, q, recv)))
+		concl := x.keepCond(pre, k.heap, q, recv)
+		if k.name == "readiness" && recv != nil {
+			// A receiver that sat in a pool (or did not exist) when this function was entered is not part of the
+			// slot tree of any validator that was ready then (ready means: all descendants live), and this function
+			// cannot link it under such a validator without writing its slots (write-ok). So the readiness of the
+			// objects this function keeps is not affected by running that receiver.
+			concl = tt.Or(concl, tt.And(tt.Not(x.poolOrFresh(pre, q)), tt.Not(x.descT(q, recv)), x.poolOrFresh(top.entry, recv)))
+		}
+		g := tt.Forall([]*Term{q}, tt.Implies(tt.And(hyp, x.keepCond(top.entry, k.heap, q, myRecv)), concl))
 		x.obligeNoAssume(fr, st, "call-effects", shortKey(key)+":"+k.name+"|"+x.lineAnchor(x.curPos), x.effectTags(), g, "callee "+key+" stays within this function's own validation-effects discipline ("+k.name+")")
 	}
 }
@@ -663,4 +679,46 @@ func (x *Exec) restoreSelf(fr *Frame, st, pre *State, recv *Term, key string) {
 			st.heaps[n] = h
 		}
 	}
+}
+
+
+// loopMix: at a loop head of a function under the validation-effects discipline, a heap written in the loop is not
+// forgotten wholesale: every write is checked against the discipline (write-ok) and every call against it
+// (call-effects), so the cells the discipline keeps for this function's callers still hold their entry values at
+// every program point. The heap becomes mix(entry heap, unknown) under the entry keep-condition, with the function's
+// declared modifies targets unknown as well.
+func (x *Exec) loopMix(fr *Frame, st *State, n, srt, lname string) bool {
+	if !x.topEffects() || x.topFrame == nil {
+		return false
+	}
+	is, es := splitArraySort(srt)
+	if is != "Int" {
+		return false
+	}
+	isFx := false
+	for _, e := range x.effectHeaps(st) {
+		if e == n {
+			isFx = true
+		}
+	}
+	if !isFx || x.isUnframedHeap(n) {
+		return false
+	}
+	tt := x.tt
+	if tt.SelectHook == nil {
+		tt.SelectHook = x.selectMix
+	}
+	top := x.topFrame
+	entryH := x.heap(top.entry, n, srt)
+	unk := tt.Fresh(n+"@"+lname, srt)
+	x.mixN++
+	op := fmt.Sprintf("mix$%d", x.mixN)
+	x.mixInfo[op] = mixRec{heap: n, pre: top.entry, recv: x.recvTerm(top)}
+	tt.Funs[op] = FunSig{Args: []string{srt, srt}, Ret: srt}
+	h := tt.App(op, srt, entryH, unk)
+	for _, idx := range x.explicitTargets(top)[n] {
+		h = tt.Store(h, idx, tt.Fresh(n+"@"+lname+"m", es))
+	}
+	st.heaps[n] = h
+	return true
 }
